@@ -145,3 +145,146 @@ def report_whole_source(ck, diffs, label=""):
         cid, l, head, s = diffs[0]
         ck.violation("correspondence translated-source(whole-file run under MiniCConc)/implementation no longer checks (%d cases differ) but no input violating the property was found" % len(diffs),
                      {"class": None, "broken": "correspondence translated whole-file run vs implementation " + label, "case": l[:3000], "implementation": head[:2000], "translated_source": s[:2000]}, found_input=False)
+
+
+# ------------------------------------------------------------------ production-scale runs (thorough tier)
+def production_scale_findings(ck):
+    """Runs with the PRODUCTION constants (16 MiB chunks, 32 MiB hash buffer) at sizes where 32-bit byte counts, the refill of the
+    hash buffer at offset != 0 and multi-GiB offsets matter -- sizes the 64-byte-chunk builds cannot reach:
+      (1) 40 MiB random plaintext (CBC, SHA-1, T=4): tag against Python's hmac over [48, EOF); four alterations behind the first
+          32 MiB (bit flip, truncation, extension, two 1 MiB pieces swapped) must all be rejected by verify and decrypt;
+      (2) 4 GiB + 1 MiB + 5 bytes of zeros (sparse input; ECB, MD5, T=16): length, every body block = AES_K(0) (last = padding
+          block), tag = HMAC-MD5 over [48, EOF); verify accepts; one bit flipped at 3 GiB: verify must reject; decrypt of the
+          authentic file restores exactly the zeros.
+    The outcome is cached per /repo source hash (build/production_scale_<hash>.json) so that the thorough tiers of C02, C05, C08,
+    C11, C12 pay once.  Returns a list of {"property": [...], "what": ..., "replay": {...}}.  ~6-8 min, ~9 GB scratch, removed."""
+    import hashlib, hmac as pyhmac, json, shutil
+    cache = os.path.join(wv.BUILD, "production_scale_%s.json" % wv.repo_source_hash()[:16])
+    with wv.Lock("production_scale"):
+        if os.path.exists(cache):
+            return json.load(open(cache))
+        exe = ck.impl_driver()
+        mdrv = ck.model_driver()
+        env = dict(ck.env(), WV_TIMEOUT_MS="1800000")
+        d = os.path.join(wv.BUILD, "production_scale_tmp")
+        shutil.rmtree(d, ignore_errors=True)
+        os.makedirs(d)
+        found = []
+        r = ck.rng
+
+        def run(line, t=2400):
+            return wv.run_lines([exe], ["x " + line], shards=1, env=env, timeout=t).get("x", "(no output)")
+
+        def add(props, what, **rep):
+            rep.update({"class": None, "production_constants": True, "replay": "harness/drv.cpp built from /repo WITHOUT size overrides; encp cm hm T key seed in out / verp T key file / decp T key file out"})
+            found.append({"property": props, "what": what, "replay": rep})
+        try:
+            # ---- (1) 40 MiB, alterations behind the first refill of the hash buffer
+            key, seed = rnd_key(r), rnd_seed(r)
+            pin, penc, pbad, pout = [os.path.join(d, n) for n in ("a.in", "a.wenc", "a.bad", "a.out")]
+            n = 40 << 20
+            with open(pin, "wb") as f:
+                for _ in range(40):
+                    f.write(os.urandom(1 << 20))
+            e = run("encp 1 0 4 %s %s %s %s" % (key.hex(), seed.hex(), pin, penc))
+            if e != "OK -":
+                add(["C01", "C02"], "encryption of 40 MiB with production constants did not succeed: " + e, n=n)
+            else:
+                F = open(penc, "rb").read()
+                tag = pyhmac.new(key, F[48:], "sha1").digest()
+                if F[10:30] != tag or any(F[30:48]):
+                    add(["C02", "C08"], "40 MiB file: the tag at offset 10 is not HMAC-SHA1 over [48, EOF) (hash buffer refilled from a non-zero file offset)", n=n, cmode=1, hmode=0, T=4, key=key.hex())
+                M32 = 32 << 20
+                alts = {"bit flip at 32 MiB + 77": F[:M32 + 77] + bytes([F[M32 + 77] ^ 4]) + F[M32 + 78:],
+                        "truncated to 35 MiB": F[:35 << 20],
+                        "last 16 bytes appended again": F + F[-16:],
+                        "1 MiB pieces at 33 MiB and 37 MiB swapped": F[:33 << 20] + F[37 << 20:38 << 20] + F[34 << 20:37 << 20] + F[33 << 20:34 << 20] + F[38 << 20:]}
+                for name, data in alts.items():
+                    open(pbad, "wb").write(data)
+                    v = run("verp 4 %s %s" % (key.hex(), pbad))
+                    dd = run("decp 4 %s %s %s" % (key.hex(), pbad, pout))
+                    if v != "FAIL" or dd != "FAIL":
+                        add(["C05", "C08", "C11", "C12"], "40 MiB file altered behind its first 32 MiB (%s): verify says %s, decrypt says %s" % (name, v, dd), alteration=name, key=key.hex(), n=n, cmode=1, hmode=0, T=4)
+                    elif os.path.exists(pout) and os.path.getsize(pout) != 0:
+                        add(["C11"], "failed decryption of the altered 40 MiB file left %d output bytes" % os.path.getsize(pout), alteration=name)
+            for p in (pin, penc, pbad, pout):
+                if os.path.exists(p):
+                    os.remove(p)
+            # ---- (2) beyond 4 GiB
+            key = rnd_key(r)
+            n = (4 << 30) + (1 << 20) + 5
+            with open(pin, "wb") as f:
+                f.truncate(n)                       # sparse: all zeros
+            e = run("encp 0 1 16 %s %s %s %s" % (key.hex(), b"seed".hex(), pin, penc))
+            want_len = 48 + 20 * 16 + 16 * (n // 16 + 1)
+            if e != "OK -":
+                add(["C01", "C02"], "encryption of 4 GiB + 1 MiB + 5 bytes did not succeed: " + e, n=n)
+            elif os.path.getsize(penc) != want_len:
+                add(["C02"], "file of a %d-byte plaintext has length %d, documented %d (a 32-bit offset / length wrapped?)" % (n, os.path.getsize(penc), want_len), n=n, T=16, cmode=0, hmode=1, key=key.hex())
+            else:
+                spec = wv.run_lines([mdrv, "spec"], ["z aes e %s %s" % (key.hex(), "00" * 16), "p aes e %s %s" % (key.hex(), "00" * 5 + "0b" * 11)], shards=1)
+                zb, pb = bytes.fromhex(spec["z"]), bytes.fromhex(spec["p"])
+                h = pyhmac.new(key, digestmod="md5")
+                badblock = None
+                with open(penc, "rb") as f:
+                    head = f.read(48 + 320)
+                    h.update(head[48:])
+                    pat = zb * (1 << 18)              # 4 MiB of the expected block
+                    off = 0
+                    body_len = want_len - 368
+                    while off < body_len:
+                        chunk = f.read(min(len(pat), body_len - off))
+                        h.update(chunk)
+                        exp = pat[:len(chunk)]
+                        if off + len(chunk) == body_len:
+                            exp = exp[:-16] + pb
+                        if chunk != exp and badblock is None:
+                            k = next(i for i in range(0, len(chunk), 16) if chunk[i:i + 16] != exp[i:i + 16])
+                            badblock = (off + k) // 16
+                        off += len(chunk)
+                if badblock is not None:
+                    add(["C02"], "4 GiB file: body block %d is not AES_K of the (zero / padding) plaintext block" % badblock, n=n, T=16, cmode=0, hmode=1, key=key.hex())
+                if head[10:26] != h.digest() or any(head[26:48]):
+                    add(["C02", "C08"], "4 GiB file: the tag at offset 10 is not HMAC-MD5 over [48, EOF) (a 32-bit byte count in the hashing path?)", n=n, T=16, hmode=1, key=key.hex())
+                v = run("verp 16 %s %s" % (key.hex(), penc))
+                if v != "OK -":
+                    add(["C01"], "verification of the freshly encrypted 4 GiB file failed: " + v, n=n)
+                dd = run("decp 16 %s %s %s" % (key.hex(), penc, pout))
+                if dd != "OK -" or os.path.getsize(pout) != n:
+                    add(["C01"], "decryption of the 4 GiB file: %s, %d bytes (expected %d)" % (dd, os.path.getsize(pout) if os.path.exists(pout) else -1, n), n=n)
+                else:
+                    nz = False
+                    with open(pout, "rb") as f:
+                        z = bytes(1 << 22)
+                        while True:
+                            c = f.read(1 << 22)
+                            if not c:
+                                break
+                            if c != z[:len(c)]:
+                                nz = True
+                                break
+                    if nz:
+                        add(["C01"], "decrypt(encrypt(P)) != P for the 4 GiB + 1 MiB + 5 byte plaintext", n=n)
+                if os.path.exists(pout):
+                    os.remove(pout)
+                with open(penc, "r+b") as f:
+                    f.seek(3 << 30)
+                    b = f.read(1)
+                    f.seek(3 << 30)
+                    f.write(bytes([b[0] ^ 1]))
+                v = run("verp 16 %s %s" % (key.hex(), penc))
+                if v != "FAIL":
+                    add(["C05", "C08", "C11", "C12"], "4 GiB file with one bit flipped at offset 3 GiB: verify says " + v, n=n, T=16, hmode=1, key=key.hex(), alteration="bit 0 of the byte at offset 3 GiB")
+        finally:
+            shutil.rmtree(d, ignore_errors=True)
+        json.dump(found, open(cache, "w"), indent=1)
+        return found
+
+
+def production_scale(ck):
+    """thorough tier: report what the production-scale runs found for this property"""
+    res = production_scale_findings(ck)
+    ck.cov["production_scale_runs"] = "40 MiB (4 alterations behind 32 MiB) + 4 GiB+1 MiB+5 (format, tag, verify, decrypt, bit flip at 3 GiB); findings for all properties: %d" % len(res)
+    for f in res:
+        if ck.pid in f["property"]:
+            ck.violation(f["what"], dict(f["replay"]))
